@@ -17,6 +17,10 @@ def main():
     seed = int(os.environ.get("VERIF_SEED", "0"))
     pid = args.pid.upper()
     try:
+        if pid in ("C14", "C20"):
+            # vendored stand-in for the optional dependency pwseqdist (absent from the sandbox); must be
+            # importable BEFORE pyrepseq.nn is imported
+            sys.path.insert(0, os.path.join(core.VERIF, "harness", "standins"))
         core.assert_repo()
         mod = importlib.import_module(f"harness.props.{pid.lower()}")
         if args.replay:
